@@ -119,6 +119,7 @@ PodChecks(pre, post, ok) ==
         Chk(\/ G_C10_ForceOnlyWithTgpAfterThreshold(pre, DlOf(pre), TgpSet, Ev.t)
             \/ (st.view.exists /\ st.view.uid = pre.uid /\ G_C10_ForceOnlyWithTgpAfterThreshold(st.view, DlOf(pre), TgpSet, Ev.t)),
             "G_C10_ForceOnlyWithTgpAfterThreshold", ForceSig(pre, DlOf(pre), TgpSet, Ev.t))
+        \o Chk(G_C10_DeleteOnlyDrainable(pre), "G_C10_DeleteOnlyDrainable", DeleteSig(pre))
         \o Chk(G_C10_GraceAtLeastOne(pre, Ev.grace), "G_C10_GraceAtLeastOne", "zero-grace")
         \o Chk(G_C10_GraceWithinDeadline(pre, Ev.grace, DlOf(pre), Ev.t), "G_C10_EarliestDeadline", "grace-beyond-queued-deadline")
     ELSE \* any other write: pods are removed by no other call
